@@ -103,3 +103,54 @@ example : walk ⟨true, true, false, false, []⟩ [⟨.dir, [97], []⟩, ⟨.fil
     = [[97, 47], [97, 47, 120]] := by decide
 
 end Fzf.Props.C19
+
+namespace Fzf.Walker
+open Fzf
+theorem length_dropWhile_le' (p : Nat → Bool) : ∀ l : List Nat, (l.dropWhile p).length ≤ l.length
+  | [] => by simp
+  | x :: l => by
+    simp only [List.dropWhile_cons]
+    split
+    · exact Nat.le_succ_of_le (length_dropWhile_le' p l)
+    · exact Nat.le_refl _
+
+theorem strip_no_dot_slash : ∀ (fuel : Nat) (t : Str), t.length ≤ fuel →
+    ¬ ([46, 47] <+: resolveRoot.strip t fuel)
+  | 0, t, h => by
+    have : t = [] := List.length_eq_zero_iff.mp (by omega)
+    subst this
+    unfold resolveRoot.strip
+    simp
+  | fuel + 1, t, h => by
+    unfold resolveRoot.strip
+    split
+    · rename_i f rest heq
+      have hf : f = fuel := by omega
+      subst hf
+      have hlen : (rest.dropWhile (· == 47)).length ≤ f := by
+        have := length_dropWhile_le' (· == 47) rest
+        simp only [List.length_cons] at h
+        omega
+      exact strip_no_dot_slash f _ hlen
+    · rename_i hne
+      intro hp
+      obtain ⟨r, hr⟩ := hp
+      exact hne fuel r rfl (by simpa using hr.symm)
+end Fzf.Walker
+
+namespace Fzf.Props.C19
+open Fzf Fzf.Walker
+
+/-- **A root under another spelling is printed without any leading `./`** — `./d`, `.//d`,
+    `././d` are all printed as `d` (finding F34: `.//d` used to be printed as `/d`), for every
+    root string. -/
+theorem C19_root_printed_without_dot_slash (root : Str) : ¬ ([46, 47] <+: (resolveRoot root).2) := by
+  unfold resolveRoot
+  exact strip_no_dot_slash _ _ (Nat.le_refl _)
+
+/- The spellings of one directory lead to the same place. -/
+example : (resolveRoot [100, 47]).1 = [100] ∧ (resolveRoot [46, 47, 47, 100]) = ([100], [100]) ∧
+    (resolveRoot [100, 47, 46, 46, 47, 100]) = ([100], [100, 47, 46, 46, 47, 100]) ∧
+    (resolveRoot [100, 47, 46, 47, 101]) = ([100, 47, 101], [100, 47, 46, 47, 101]) := by decide
+
+end Fzf.Props.C19
